@@ -219,10 +219,18 @@ def run(repo: Repo, chk: Check, thorough: bool = False) -> None:
     if not gtests:
         raise AnalysisError('R05.4: the branch of compute_mro.localbases that drops an explicit Generic[...] base was not found')
     for n in gtests:
-        quant = [g for g in ast.walk(n.test) if isinstance(g, (ast.GeneratorExp, ast.ListComp, ast.SetComp)) and
-                 any(isinstance(x, ast.Subscript) and isinstance(x.slice, ast.Slice) and x.slice.upper is None and x.slice.lower is not None
-                     for gen in g.generators for x in ast.walk(gen.iter))]
-        fixed = [x for x in ast.walk(n.test) if isinstance(x, ast.Subscript) and not isinstance(x.slice, ast.Slice) and isinstance(x.slice, ast.BinOp)]
+        # the test itself, plus the values of the locals it reads (`next_base = rawbases[i+1][1] ...`)
+        read = {x.id for x in ast.walk(n.test) if isinstance(x, ast.Name)}
+        exprs: List[ast.AST] = [n.test] + [a.value for a in lb.walk() if isinstance(a, ast.Assign) and any(isinstance(t, ast.Name) and t.id in read for t in a.targets)]
+
+        def open_tail(x: ast.AST) -> bool:
+            return (isinstance(x, ast.Subscript) and isinstance(x.slice, ast.Slice) and x.slice.upper is None and x.slice.lower is not None) or \
+                (isinstance(x, ast.Call) and call_name(x) == 'range' and len(x.args) >= 2 and isinstance(x.args[0], ast.BinOp))
+        quant = [g for e_ in exprs for g in ast.walk(e_) if isinstance(g, (ast.GeneratorExp, ast.ListComp, ast.SetComp)) and
+                 any(open_tail(x) for gen in g.generators for x in ast.walk(gen.iter))] + \
+            [lp for lp in lb.walk() if isinstance(lp, ast.For) and lp is not n and any(open_tail(x) for x in ast.walk(lp.iter)) and
+             any(isinstance(a, ast.Assign) and any(isinstance(t, ast.Name) and t.id in read for t in a.targets) for st in lp.body for a in ast.walk(st))]
+        fixed = [x for e_ in exprs for x in ast.walk(e_) if isinstance(x, ast.Subscript) and not isinstance(x.slice, ast.Slice) and isinstance(x.slice, ast.BinOp)]
         if not quant and not fixed:
             raise AnalysisError('R05.4: the test that drops Generic[...] reads the later bases in an unrecognised way')
         chk.ob('R05.4', f'{lb.qn} :: Generic[...] is dropped when ANY later base is a subscripted generic', bool(quant),
